@@ -22,6 +22,9 @@ def expected_of(case):
     fn_fail = {int(k): v for k, v in case.get('fn_fail', {}).items()}
     catch = case.get('catch', False)
     out = []
+    if case.get('iter_fail'):
+        # the source fails when iteration over it STARTS (an __iter__ that opens a file), before any example
+        return out, 0, case['iter_fail'], 'iter'
     for i in range(n):
         e = src_fail.get(i) or fn_fail.get(i)
         if e is not None:
@@ -87,10 +90,23 @@ def run_case(case, trace_lines=True):
         if i in src_fail:
             raise mkexc(src_fail[i], 'src', i)
 
+    src_none = case.get('src_none')  # position of a source example that is None (a legitimate example)
+
+    def srcval(i):
+        return None if i == src_none else ('v', i)
+
+    def pos_of(x):
+        return src_none if x is None else x[1]
+
     def source():
         for i in range(n):
             pull(i)
-            yield ('v', i)
+            yield srcval(i)
+
+    class EagerlyFailing:
+        # an iterable whose __iter__ itself raises: not a generator (whose body only starts at the first next())
+        def __iter__(self):
+            raise mkexc(case['iter_fail'], 'iter', 0)
 
     def work(i):
         sched.event('start', i)
@@ -106,10 +122,10 @@ def run_case(case, trace_lines=True):
         return None if i in none_at else progs.value_of(case.get('vk'), ('r', i))
 
     def fn(x):
-        return work(x[1])
+        return work(pos_of(x))
 
     def pull_fn(x):
-        pull(x[1])
+        pull(pos_of(x))
         return x
 
     tr = Trace()
@@ -127,10 +143,11 @@ def run_case(case, trace_lines=True):
             def gen():
                 for x in source():
                     yield fn(x)
-            return pu.single_thread_prefetch(gen(), b)
+            return pu.single_thread_prefetch(EagerlyFailing() if case.get('iter_fail') else gen(), b)
         if kind == 'lpm':
-            return pu.lazy_parallel_map(fn, source(), buffer_size=b, max_workers=w, backend='t')
-        vals = [('v', i) for i in range(n)]
+            return pu.lazy_parallel_map(fn, EagerlyFailing() if case.get('iter_fail') else source(),
+                                        buffer_size=b, max_workers=w, backend='t')
+        vals = [srcval(i) for i in range(n)]
         if case.get('src') == 'dict' or case.get('with_key'):
             ds = lazy_dataset.new({key_of(i): v for i, v in enumerate(vals)})
         elif case.get('src') == 'concat' and n >= 2:
@@ -139,6 +156,22 @@ def run_case(case, trace_lines=True):
             ds = lazy_dataset.concatenate(*[p for p in parts if len(p)])
         else:
             ds = lazy_dataset.new(vals)
+        if case.get('iter_fail'):
+            failing = EagerlyFailing()
+
+            class UserDataset(lazy_dataset.Dataset):
+                indexable = False
+                ordered = True
+
+                def copy(self, freeze=False):
+                    return self
+
+                def __len__(self):
+                    return n
+
+                def __iter__(self, with_key=False):
+                    return iter(failing)
+            ds = UserDataset()
         if kind == 'pf2':
             # two single-thread prefetch stages stacked: two hand-over threads alive at the same time
             ds = ds.map(pull_fn).prefetch(1, b).map(fn).prefetch(1, max(1, case.get('buffer2', 1)))
@@ -271,7 +304,7 @@ def describe(tr):
     return (f"workload {c['kind']} n={c['n']} workers={c['workers']} buffer={c['buffer']} "
             f"with_key={c.get('with_key', False)} src_fail={c.get('src_fail', {})} fn_fail={c.get('fn_fail', {})} "
             f"catch={c.get('catch', False)} stop={c.get('stop')} pauses={c.get('pauses', [])} "
-            + ''.join(f'{k}={c[k]} ' for k in ('vk', 'batched', 'dual', 'copy', 'src', 'shuffled', 'epochs') if c.get(k)) +
+            + ''.join(f'{k}={c[k]} ' for k in ('vk', 'batched', 'dual', 'copy', 'src', 'shuffled', 'epochs', 'src_none', 'iter_fail') if c.get(k) is not None and c.get(k) is not False) +
             f"decisions={len(tr.sched.decisions)} preemptions={tr.sched.preemptions}")
 
 
@@ -391,7 +424,8 @@ def readahead_profile(tr):
 def judge_readahead(tr):
     """C07: at every event pulled - handed <= buffer + 2; on pool paths started - handed <= buffer."""
     c = tr.case
-    b = max(c['buffer'], 0)
+    import math
+    b = math.ceil(max(c['buffer'], 0))  # a fractional buffer size (len(ds) / 16) holds ceil(b) examples
     if tr.construct_error is not None:
         return
     pulled = started = handed = 0
@@ -477,6 +511,10 @@ def st_case(draw, profile):
     if draw(st.integers(0, 2)) == 0:
         # examples that are arrays, exception objects, falsy, or refuse ==/bool()/len() altogether
         case['vk'] = draw(st.sampled_from(progs.VALUE_KINDS[1:]))
+    if n and 'with_key' not in case and draw(st.integers(0, 4)) == 0:
+        case['src_none'] = draw(st.integers(0, n - 1))  # a None example in the SOURCE (input of the function)
+    if profile in ('plain', 'readahead') and kind != 'pf2' and draw(st.integers(0, 7)) == 0:
+        case['buffer'] = b + 0.5  # buffer sizes are often computed (len(ds) / 16): not necessarily an int
     if profile == 'readahead' and kind == 'pf' and w == 1 and draw(st.integers(0, 9)) == 0:
         case['buffer'] = 0  # must be rejected (or, if accepted, still obey the bound)
     if n >= 2 and draw(st.integers(0, 3)) > 0:
@@ -498,6 +536,7 @@ def st_case(draw, profile):
             else:
                 fn_fail[str(p)] = e
         case['src_fail'], case['fn_fail'] = src_fail, fn_fail
+        iter_fail = (kind in ('stp', 'lpm') or (kind == 'pf' and w == 1)) and draw(st.integers(0, 5)) == 0
         if kind == 'pf':
             case['catch'] = draw(st.sampled_from([False, 'VErrA', ['VErrA', 'VErrC'], 'VErrB']))
             if 'dual' in case and case['catch'] is not False:
@@ -515,6 +554,12 @@ def st_case(draw, profile):
                 case.pop('with_key', None)
             if case['catch'] is not False:
                 case.pop('with_key', None) if w > 1 else None
+        if iter_fail:
+            # the source fails when iteration over it starts (before the first example), nothing else fails
+            case['iter_fail'] = draw(st.sampled_from(['VErrA', 'VErrC', 'VBase']))
+            case['src_fail'], case['fn_fail'] = {}, {}
+            for k in ('with_key', 'src', 'dual', 'copy', 'src_none', 'shuffled', 'catch'):
+                case.pop(k, None)
     if profile == 'plain' and kind in ('pf', 'pm') and n >= 2 and 'with_key' not in case and draw(st.integers(0, 3)) == 0:
         case['src'] = 'concat'
         case['trace_core'] = draw(st.booleans())
